@@ -222,6 +222,12 @@ def record_compute_features(case, call=None, stub=None, opts_obj=None, repeat=1)
     import copy
     opts_run = copy.deepcopy(opts) if opts_obj is None else opts_obj      # opts_obj: the caller's own (shared, possibly re-used) option objects
     sig_run = sig.copy()
+    how = case.get('k', 0) % 11
+    if how == 4 and repeat <= 1:
+        sig_run.setflags(write=False)          # a read-only recording (memory-mapped file, array owned by another library)
+    elif how == 8:
+        big = np.concatenate([np.full(3, sig[0] if len(sig) else 0, dtype=sig.dtype), sig, np.full(5, sig[-1] if len(sig) else 0, dtype=sig.dtype)])
+        sig_run = big[3:3 + len(sig)]           # a view into a longer recording
     with interpose.replaced(rec.mapping()):
         try:
             # repeat > 1: the user calls again with the SAME signal array and the SAME option objects; the LAST call is the one judged
